@@ -141,13 +141,15 @@ Definition contractb_multiclass_precision_recall_curve_update_input_check (e : e
   match arg e "input", arg e "target" with
   | ATensor [n; c], ATensor [m] => Nat.eqb n m && opt_int_is (arg e "num_classes") c
   | _, _ => false end.
-(* labels must be < num_classes (value atoms); predicted labels (n,) or scores (n, num_classes) *)
+(* labels must lie in [0, num_classes) (value atoms); predicted labels (n,) or scores (n, num_classes) *)
 Definition contractb_confusion_matrix_update_input_check (e : env) : bool :=
   match arg e "input", arg e "target" with
   | ATensor [n], ATensor [m] =>
-      Nat.eqb n m && atom_false e "torch.max(input) >= num_classes" && atom_false e "torch.max(target) >= num_classes"
+      Nat.eqb n m && atom_false e "torch.max(input) >= num_classes" && atom_false e "torch.min(input) < 0"
+      && atom_false e "torch.min(target) < 0" && atom_false e "torch.max(target) >= num_classes"
   | ATensor [n; c], ATensor [m] =>
-      Nat.eqb n m && int_is (arg e "num_classes") c && atom_false e "torch.max(target) >= num_classes"
+      Nat.eqb n m && int_is (arg e "num_classes") c
+      && atom_false e "torch.min(target) < 0" && atom_false e "torch.max(target) >= num_classes"
   | _, _ => false end.
 Definition contractb_multiclass_auroc_update_input_check := c_multiclass_scores.
 Definition contractb_multiclass_auprc_update_input_check := c_multiclass_scores.
